@@ -25,6 +25,7 @@ class Ctx:
         self.impl = {}
         self.model = {}
         self.quick = tier == 'quick'
+        self.phase = {}           # wall seconds per phase (evidence: stats.phase_seconds)
 
     def add(self, op_and_args, kind='corr', meta=None, diff=True):
         self.n += 1
@@ -77,9 +78,13 @@ def infra_fail(msg):
 
 def run_both(ctx, cases):
     lines = ['%s %s' % (c.id, c.line) for c in cases]
+    t = time.time()
     impl = core.run_cases(core.HARNESS_BIN, lines, ctx.pid + '-impl')
+    ctx.phase['run_implementation'] = round(time.time() - t, 1)
     need_model = [l for l, c in zip(lines, cases) if c.diff]
+    t = time.time()
     model = core.run_cases(core.DRIVER_BIN, need_model, ctx.pid + '-model') if need_model else {}
+    ctx.phase['run_model'] = round(time.time() - t, 1)
     return impl, model
 
 
@@ -166,7 +171,16 @@ def main(argv=None):
         rp = json.load(open(replay))
         for l in rp.get('cases', []):
             ctx.add(l, kind='replay')
+    ctx.phase['build_and_proofs'] = round(time.time() - t0, 1)
+    t1 = time.time()
     mod.generate(ctx)
+    ctx.phase['generate'] = round(time.time() - t1, 1)
+    # the sizes this check reaches (second review, H2): over every value the generator encoded, and the largest single argument
+    # of a case line (hex: a buffer or a text)
+    sm = dict(gen.SIZE_MAX)
+    sm['largest_case_argument_bytes'] = max([len(a) // 2 for c in ctx.cases for f in c.line.split(' ')[1:] if len(f) > 64 for a in f.split(',')] or [0])
+    sm.update(ctx.stats.get('size_maxima', {}))
+    ctx.stats['size_maxima'] = sm
     impl, model = run_both(ctx, ctx.cases)
     ctx.impl, ctx.model = impl, model
     invalid_kinds = getattr(mod, 'INVALID_INPUT_KINDS', INVALID_INPUT_KINDS)
@@ -210,10 +224,13 @@ def main(argv=None):
         ctx.count('outcome_class', io.split(' ', 1)[0])
     # property-specific direct checks on the implementation (the "search")
     if hasattr(mod, 'judge'):
+        t1 = time.time()
         try:
             mod.judge(ctx)
         except core.InfraError as ex:
             infra_fail(str(ex))
+        ctx.phase['judge'] = round(time.time() - t1, 1)
+    ctx.stats['phase_seconds'] = ctx.phase
     ctx.stats['runner'] = dict(core.RUN_STATS)
 
     # 6. replay witnesses of open known findings
